@@ -5,9 +5,12 @@
     malformed signatures: success/failure vs the model;
 (b) Python values (value-first generator): sigFromPy vs Model sig_from_py; the inferred signature is one
     complete type; wrappers select exactly their type; values inside the claim (each container's elements
-    share one DBus type, or differ in Python class) encode as a variant and decode to an equal value.
+    share one DBus type, or differ in Python class) encode as a variant and decode to an equal value;
+    the precondition itself ("inside the claim") is compared with the Coq predicate inside_claim_b of
+    Spec/Homogeneous.v (op 19), which the theorem C19_variant_roundtrip is stated over.
 """
 import random
+import re
 
 from harness import common
 from harness import marshal_common as mc
@@ -17,7 +20,11 @@ ASSUMPTIONS = [
     '"equal under Python equality" is read modulo the documented read-back normalisation (tuple -> list, bytearray -> list of '
     'ints, wrapper -> plain value), DESIGN.md section 9 (1)',
     'containers whose elements share a Python class but not a DBus type are outside the claim (generated, compared with the model, '
-    'not judged by the oracle)',
+    'not judged by the oracle); exception, as the property says ("travel as their common base type"): a list whose first element is a '
+    'plain int / str and whose other elements are instances of subclasses (bool, wrapper classes) fitting INT32 / STRING is inside',
+    'inside the claim also means: scalars fit the type they infer (plain int: INT32; wrapper: its type; str: UTF-8 without NUL; '
+    'ObjectPath: valid path; Signature: ASCII <= 255), every signature carried by a variant has <= 255 characters, dict keys are not NaN; '
+    'ref_type below and inside_claim_b in coq/Spec/Homogeneous.v define the same set (compared on every generated value)',
 ]
 
 
@@ -69,10 +76,62 @@ class Outside(Exception):
     pass
 
 
+PATH_RE = re.compile(r'\A(/|(/[A-Za-z0-9_]+)+)\Z')
+
+
+def str_ok(s):
+    """a str with a STRING encoding: UTF-8 encodable, no NUL"""
+    if '\x00' in s:
+        return False
+    try:
+        s.encode('utf-8')
+    except UnicodeEncodeError:
+        return False
+    return True
+
+
+def wrapper_fits(sig, v):
+    if sig == 'b':
+        return int(v) in (0, 1)
+    if sig in mc.BASIC_INT:
+        lo, hi = mc.BASIC_INT[sig]
+        return isinstance(v, int) and lo <= int(v) <= hi
+    if sig == 'g':
+        return isinstance(v, str) and all(ord(c) < 128 for c in v) and len(v) <= 255
+    if sig == 'o':
+        return isinstance(v, str) and str_ok(str(v)) and PATH_RE.match(str(v)) is not None
+    return False
+
+
+def opt_type(v):
+    try:
+        return ref_type(v)
+    except Outside:
+        return None
+
+
+def variant_ok(v):
+    """v is inside the claim and a variant can carry its signature"""
+    t = opt_type(v)
+    return t is not None and len(t) <= 255
+
+
+def as_base(first, y):
+    """y, an instance of a subclass of the plain int / str class of the first element, travels as that type"""
+    if type(first) is int:
+        return isinstance(y, int) and -2**31 <= int(y) < 2**31
+    if type(first) is str:
+        return isinstance(y, str) and str_ok(str(y))
+    return False
+
+
 def ref_type(v):
-    """DBus type of a value sent as a variant when it is inside the claim; raises Outside otherwise"""
+    """DBus type of a value sent as a variant when it is inside the claim; raises Outside otherwise.
+    Mirror of ref_ty in coq/Spec/Homogeneous.v."""
     sig = getattr(v, 'dbusSignature', None)
     if sig is not None:
+        if not wrapper_fits(sig, v):
+            raise Outside()
         return sig
     if isinstance(v, bool):
         return 'b'
@@ -83,6 +142,8 @@ def ref_type(v):
     if isinstance(v, float):
         return 'd'
     if isinstance(v, str):
+        if not str_ok(v):
+            raise Outside()
         return 's'
     if isinstance(v, bytearray):
         return 'ay'
@@ -90,12 +151,13 @@ def ref_type(v):
         if not v:
             return 'av'
         if all(isinstance(x, type(v[0])) for x in v[1:]):
-            ts = {ref_type(x) for x in v}
-            if len(ts) != 1:
-                raise Outside()
-            return 'a' + ts.pop()
-        for x in v:
-            ref_type(x)
+            t = ref_type(v[0])
+            for x in v[1:]:
+                if opt_type(x) != t and not as_base(v[0], x):
+                    raise Outside()
+            return 'a' + t
+        if not all(variant_ok(x) for x in v):
+            raise Outside()
         return 'av'
     if isinstance(v, tuple):
         if not v:
@@ -104,19 +166,29 @@ def ref_type(v):
     if isinstance(v, dict):
         if not v:
             return 'a{sv}'
-        kts = {ref_type(k) for k in v}
-        if len(kts) != 1 or next(iter(kts)) not in list('ybnqiuxtdsog'):
+        keys = list(v)
+        kt = ref_type(keys[0])
+        if kt not in list('ybnqiuxtdsog') or any(opt_type(k) != kt for k in keys[1:]):
+            raise Outside()
+        if any(isinstance(k, float) and k != k for k in keys):
             raise Outside()
         vals = list(v.values())
         if all(isinstance(x, type(vals[0])) for x in vals[1:]):
-            ts = {ref_type(x) for x in vals}
-            if len(ts) != 1:
+            # no base-type case here: the inference takes the type of the LAST value
+            t = ref_type(vals[0])
+            if any(opt_type(x) != t for x in vals[1:]):
                 raise Outside()
-            return 'a{' + kts.pop() + ts.pop() + '}'
-        for x in vals:
-            ref_type(x)
-        return 'a{' + kts.pop() + 'v}'
+            return 'a{' + kt + t + '}'
+        if not all(variant_ok(x) for x in vals):
+            raise Outside()
+        return 'a{' + kt + 'v}'
     raise Outside()
+
+
+def inside_claim(v):
+    """the type of v when v is inside the claim as a top-level variant, else None"""
+    t = opt_type(v)
+    return t if t is not None and len(t) <= 255 else None
 
 
 def norm(v):
@@ -222,6 +294,61 @@ def vary(rng, marshal, proto):
     return proto
 
 
+def gen_wild(rng, marshal, depth):
+    """like gen_value, with leaves and shapes on both sides of the claim's boundary: out-of-range ints and
+    wrappers, NUL strings, invalid paths / signatures, NaN keys, base-type lists, signatures around 255"""
+    r = rng.random()
+    if depth <= 0 or r < 0.4:
+        k = rng.randrange(14)
+        if k == 0:
+            return rng.choice([2**31, -2**31 - 1, 2**31 - 1, -2**31, 2**40, -2**63, 2**64])
+        if k == 1:
+            w, x = rng.choice([(marshal.Byte, 256), (marshal.Byte, -1), (marshal.Byte, 255), (marshal.Boolean, 2),
+                               (marshal.Boolean, -1), (marshal.Boolean, 1), (marshal.Int16, 2**15), (marshal.Int16, -2**15),
+                               (marshal.UInt16, 2**16), (marshal.UInt16, -1), (marshal.Int32, 2**31), (marshal.Int32, -2**31 - 1),
+                               (marshal.UInt32, 2**32), (marshal.UInt32, 2**32 - 1), (marshal.Int64, 2**63), (marshal.Int64, -2**63),
+                               (marshal.UInt64, 2**64), (marshal.UInt64, 2**40), (marshal.UInt64, -1)])
+            return w(x)
+        if k == 2:
+            return rng.choice(['a\x00b', '\x00', 'ok', '\u00e9\x00'])
+        if k == 3:
+            return marshal.ObjectPath(rng.choice(['', 'a', '/a/', '//', '/a//b', '/a-b', '/\u00e9', '/a\x00', '/ok/1', '/']))
+        if k == 4:
+            return marshal.Signature(rng.choice(['\u00e9', 'i' * 255, 'i' * 256, 'zz', 'a\x00', '']))
+        if k == 5:
+            return rng.choice([float('nan'), float('-inf'), -0.0, 0.0])
+        return gen_value(rng, marshal, 0)
+    if r < 0.55:
+        # one Python base class, several subclasses: the common-base-type case and its failures
+        base = rng.choice(['int', 'str'])
+        n = rng.choice([1, 2, 3])
+        if base == 'int':
+            pool = [0, 1, -7, True, False, marshal.Byte(3), marshal.UInt64(2**40), marshal.Int16(-2), marshal.Byte(300),
+                    2**31, marshal.Boolean(1), marshal.UInt32(2**31)]
+        else:
+            pool = ['', 'x', 'a\x00', marshal.ObjectPath('/a'), marshal.Signature('ii'), marshal.ObjectPath('bad'), '\u65e5']
+        return [rng.choice(pool) for _ in range(n)]
+    if r < 0.7:
+        n = rng.choice([0, 1, 2, 3])
+        return [gen_wild(rng, marshal, depth - 1) for _ in range(n)]
+    if r < 0.8:
+        n = rng.choice([0, 1, 2, 2, 3])
+        return tuple(gen_wild(rng, marshal, depth - 1) for _ in range(n))
+    if r < 0.86:
+        # signatures around the 255-character limit (top level and inside a variant)
+        n = rng.choice([250, 253, 254, 255, 300])
+        t = tuple(rng.choice([0, 'x', True]) for _ in range(n))
+        return rng.choice([t, [t, 1], {'k': t, 'j': 1}, (t,)])
+    n = rng.choice([1, 2, 3])
+    d = {}
+    kproto = rng.choice(['s', 'i', 'y', 'd', 'b', 'mix', 'bad'])
+    for j in range(n):
+        k = {'s': 'k%d' % j, 'i': j - 1, 'y': marshal.Byte(j), 'd': [0.5, float('nan'), -0.0][j], 'b': [True, False, True][j],
+             'mix': ['a', 2, marshal.Byte(9)][j], 'bad': [marshal.Byte(256), 2**31, 'a\x00'][j]}[kproto]
+        d[k] = gen_wild(rng, marshal, depth - 1)
+    return d
+
+
 def mutate_sig(rng, s):
     ops = rng.randrange(5)
     i = rng.randrange(len(s) + 1)
@@ -279,11 +406,13 @@ def evaluate(ctx, cases, res):
         lines = []
         for i, c in vals:
             rng = random.Random(c['seed'])
-            v = gen_value(rng, marshal, c['depth'])
+            v = (gen_wild if c.get('wild') else gen_value)(rng, marshal, c['depth'])
             built.append(v)
             lines.append('(1 4 %s)' % common.dump(mc.pv_form(v)))
         outs = common.run_model(lines)
-        for (i, c), v, o in zip(vals, built, outs):
+        # the precondition of the theorem C19_variant_roundtrip, evaluated by the Coq definition
+        claims = common.run_model([ln.replace('(1 4 ', '(19 1 ', 1) for ln in lines])
+        for (i, c), v, o, cl in zip(vals, built, outs, claims):
             try:
                 impl = ('ok', marshal.sigFromPy(v))
             except Exception as e:
@@ -293,19 +422,24 @@ def evaluate(ctx, cases, res):
             if impl[0] != model[0] or (impl[0] == 'ok' and impl[1] != model[1]):
                 res.disagree({'case': c, 'value': repr(v)}, impl, model)
             case = {'kind': 'val', 'seed': c['seed'], 'depth': c['depth'], 'value': repr(v)}
+            if c.get('wild'):
+                case['wild'] = True
+            # correspondence of the precondition: Python reference vs Coq inside_claim_b / ref_ty
+            rt = opt_type(v)
+            want = inside_claim(v)
+            py_claim = (want is not None, rt)
+            coq_claim = (cl[1] == 1, cl[2].decode('latin-1') if isinstance(cl[2], bytes) else None) if cl[0] == 1 else ('bad', cl)
+            if py_claim != coq_claim:
+                res.disagree({'case': c, 'value': repr(v), 'what': 'inside the claim / reference type: harness ref_type vs Coq ref_ty'},
+                             py_claim, coq_claim)
             if impl[0] == 'ok':
                 sp = ref_split(impl[1])
                 empty_tuple = '()' in impl[1]
                 if (sp is None or len(sp) != 1) and not empty_tuple:
                     # a dict keyed by a container etc. is outside the claim; judge only inside values
-                    try:
-                        ref_type(v)
+                    if want is not None:
                         res.violate(case, 'inferred signature %r is not a single complete type' % (impl[1],), 'inferred-not-single')
-                    except Outside:
-                        pass
-            try:
-                want = ref_type(v)
-            except Outside:
+            if want is None:
                 noutside += 1
                 continue
             ninside += 1
@@ -337,15 +471,14 @@ def evaluate(ctx, cases, res):
             if failed:
                 continue
             res.sample({'value': repr(v), 'inferred': impl[1]}, limit=6)
-    res.extra['valid_signatures'] = nvalid
-    res.extra['malformed_signatures'] = ninvalid
-    res.extra['values_inside_claim'] = ninside
-    res.extra['values_outside_claim'] = noutside
+    for key, n in (('valid_signatures', nvalid), ('malformed_signatures', ninvalid),
+                   ('values_inside_claim', ninside), ('values_outside_claim', noutside)):
+        res.extra[key] = res.extra.get(key, 0) + n      # evaluate runs once per batch
 
 
 def gen_cases(ctx):
     rng = ctx.rng
-    for ts in c01.small_types(ctx.n(5, 7)):
+    for ts in c01.small_types(ctx.n(5, 6)):
         yield {'kind': 'sig', 'sig': ''.join(mc.show(t) for t in ts)}
     for _ in range(ctx.n(3000, 40000)):
         ts = [mc.gen_type(rng, rng.choice([1, 2, 3, 5]), allow_fd=True) for _ in range(rng.choice([1, 2, 3, 6]))]
@@ -358,11 +491,21 @@ def gen_cases(ctx):
         yield {'kind': 'sig', 'sig': '(' * n + 'i' + ')' * n}
     for _ in range(ctx.n(5000, 100000)):
         yield {'kind': 'val', 'seed': rng.randrange(1 << 40), 'depth': rng.choice([0, 1, 2, 2, 3])}
+    for _ in range(ctx.n(3000, 60000)):
+        yield {'kind': 'val', 'seed': rng.randrange(1 << 40), 'depth': rng.choice([0, 1, 2, 2, 3]), 'wild': True}
 
 
 def run(ctx, res):
     res.rule = ('(a) every signature of <= %d characters derivable from the type grammar, random grammar-derived ones (truncated at '
                 '255) and mutated (malformed) ones; (b) value-first nested Python values (bool/int/float/str/bytearray/wrappers, '
                 'homogeneous and heterogeneous lists, tuples, dicts); non-trivial = signature longer than one character / container '
-                'value; distinct by hash' % ctx.n(5, 7))
-    evaluate(ctx, gen_cases(ctx), res)
+                'value; distinct by hash' % ctx.n(5, 6))
+    # in batches: the thorough tier enumerates about 8 million signatures (7 characters would be 113 million)
+    batch = []
+    for c in gen_cases(ctx):
+        batch.append(c)
+        if len(batch) >= 250000:
+            evaluate(ctx, batch, res)
+            batch = []
+    if batch:
+        evaluate(ctx, batch, res)
